@@ -32,7 +32,7 @@ PROPS = {
             "trivial": lambda op, res: False},
     "C14": {"shared": ["Prims"], "rule": "wif.enc/dec over scalars with leading zeros x both flags x network bytes; each checksum bit, marker values 0/2/255, decoded lengths 28..46; addr for every version byte; hash helpers on padding-edge lengths vs independent Lean SHA-256/RIPEMD-160.",
             "trivial": lambda op, res: False},
-    "C15": {"shared": ["Prims"], "rule": "all decoders on the negative generators of C05/C06/C08/C11/C12/C13/C14/C07 plus raw fuzz (lengths 0..300, structured prefixes), non-UTF-8 text, 4 nil/non-nil envelope combinations x malformed hex; a Go panic is reported as `panic` and never matches the model.",
+    "C15": {"shared": ["Prims"], "gens": ["C15", "C08", "C04"], "rule": "all decoders on the negative generators of C05/C06/C08/C11/C12/C13/C14/C07 plus raw fuzz (lengths 0..300, structured prefixes), non-UTF-8 text, 4 nil/non-nil envelope combinations x malformed hex; a Go panic is reported as `panic` and never matches the model.",
             "trivial": lambda op, res: False},
     "C16": {"extra": [mem_sweep], "rule": "heap-model ops (mem.*) comparing the whole backing array after the call, plus a reflection sweep over every exported function with canary-filled slice windows (spare capacity 0..64), deep-copied big.Int/key/signature twins and a repeated call.",
             "trivial": lambda op, res: False},
